@@ -15,20 +15,30 @@ import (
 
 type Locker = sync.Locker
 
-// Mutex is an exclusive lock built on a 1-slot channel.
+// Mutex is an exclusive lock built on a 1-slot channel. The channel belongs to
+// the synctest bubble it was made in; a Mutex that outlives an execution (a
+// package-level lock) gets a fresh, unlocked channel in the next one.
 type Mutex struct {
-	ch atomic.Pointer[chan struct{}]
+	ch atomic.Pointer[mch]
+}
+
+type mch struct {
+	c     chan struct{}
+	epoch uint64
 }
 
 func (m *Mutex) c() chan struct{} {
-	if p := m.ch.Load(); p != nil {
-		return *p
+	e := vsched.Epoch()
+	for {
+		p := m.ch.Load()
+		if p != nil && p.epoch == e {
+			return p.c
+		}
+		n := &mch{c: make(chan struct{}, 1), epoch: e}
+		if m.ch.CompareAndSwap(p, n) {
+			return n.c
+		}
 	}
-	c := make(chan struct{}, 1)
-	if m.ch.CompareAndSwap(nil, &c) {
-		return c
-	}
-	return *m.ch.Load()
 }
 
 func (m *Mutex) Lock() {
